@@ -143,6 +143,9 @@ func report(a RunArgs, eng Engine, engName string, info Info, results []*Result,
 			inconcl = append(inconcl, fmt.Sprintf("only %d of %d calls succeeded (< %d%%): see C04/C09 for why", events["ok_calls"], events["calls"], info.MinSuccessPct))
 		}
 	}
+	if events["calls"] > 10 && events["hooks_unreached"] == events["calls"] {
+		inconcl = append(inconcl, "no hook event was received during any call: the tree was not built with -tags verif or the hooks were removed; loop and recursion budgets were not in force")
+	}
 	if a.Replay == "" && len(distinct) < 2 && len(viols) == 0 {
 		inconcl = append(inconcl, "fewer than 2 distinct non-trivial cases observed")
 	}
